@@ -4,6 +4,7 @@ import AthlibVerif.Drv.HJ
 import AthlibVerif.Drv.Cache
 import AthlibVerif.Drv.Uka
 import AthlibVerif.Drv.Implements
+import AthlibVerif.Drv.Conc
 /-!
 Line-protocol driver: one request per line (`area<TAB>cmd<TAB>arg…`), one reply per line.
 Imports only the import-free models and the generated data, so it also links as `lean_exe`.
@@ -20,6 +21,7 @@ def handle (st : DrvState) (line : String) : DrvState × String :=
   | "cache" :: rest => (st, handleCache rest)
   | "uka" :: rest => (st, handleUka rest)
   | "imp" :: rest => (st, handleImplements rest)
+  | "conc" :: rest => (st, handleConc rest)
   | "hj" :: rest => let (c, out) := handleHJ st.hj rest; ({ st with hj := c }, out)
   | _ => (st, "bad-area")
 
